@@ -1,5 +1,5 @@
 (* Properties/C16.v — Mutations are delivered exactly once, as mutations, to their owner.  Statements only. *)
-From V Require Import Base.Util Gql.Ast Model.Plan Proofs.PlanProofs.
+From V Require Import Base.Util Gql.Ast Model.Plan Proofs.PlanProofs Model.Perm Model.Gateway Proofs.ExecReqProofs.
 
 (* Root routing: a root field that has an owner is placed in the root selection of exactly one service — its owner —
    whatever the set of (distinct) services; so it is sent once, never to a service that does not own it. *)
@@ -14,3 +14,15 @@ Theorem C16_no_invented_field : forall c root ss steps,
   plan c root ss = Ok steps -> incl (flat_map sfields steps) (flat_map ufields ss).
 Proof. exact plan_sub. Qed.
 Print Assumptions C16_no_invented_field.
+
+(* never sent as a query, and queries never sent as mutations: for EVERY generation, world (data, faults), operation,
+   variables, permission set, limit and fuel, every downstream request of the whole gateway model is either an entity lookup
+   - and then a query, so everything done to complete a mutation's result is read-only - or a root request whose operation
+   type is mutation exactly when the step's parent type is Mutation. *)
+Theorem C16_operation_types : forall G fschema W op vars P max fuel oc,
+  gateway G fschema W op vars P max fuel = Ok oc ->
+  Forall (fun rq => match rq_lookup rq with
+                    | Some _ => rq_optype rq = OQuery
+                    | None => rq_optype rq = opkind_of_root (rq_parent rq) end) (oc_requests oc).
+Proof. exact gateway_reqs. Qed.
+Print Assumptions C16_operation_types.
